@@ -37,7 +37,7 @@ Definition locs_check (bd : bundle) (locs : list (str * dtable * list (list N * 
   forallb (fun x => match x with
                     | (path, t, real) =>
                         match find_jfile bd path with
-                        | Some f => locs_eqb (main_locs to_camel t f) real
+                        | Some f => locs_eqb (main_locs to_camel to_screaming_snake t f) real
                         | None => false
                         end
                     end) locs.
